@@ -33,8 +33,9 @@ type Part struct {
 }
 
 type Op struct {
-	Kind   string `json:"kind"` // write | checkpoint | sleep | shutdown
+	Kind   string `json:"kind"` // write | checkpoint | sleep | shutdown | destroy
 	Parts  []Part `json:"parts,omitempty"`
+	Bucket int    `json:"bucket,omitempty"` // destroy: index of the bucket
 	Ms     int    `json:"ms,omitempty"`
 	Writer int    `json:"writer,omitempty"` // goroutine that issues the op (bg mode)
 }
